@@ -510,7 +510,7 @@ def _c10_apalache(rep) -> None:
                     runs[name]['note'] = 'apalache did not finish: ' + p.stdout[-300:]
         except subprocess.TimeoutExpired:
             runs[name] = {'discharged': False, 'note': 'timeout'}
-    rep.extra['inductive_invariant'] = {'spec': 'spec/ApaCache.tla (3 addresses, 3 type descriptors, 2 handler sets, 2 threads; unbounded histories)',
+    rep.extra['inductive_invariant'] = {'spec': 'spec/ApaCache.tla (3 addresses, 3 type descriptors, 2 handler sets, 2 threads, up to 2 registrations of global handlers; unbounded histories)',
                                         'obligations': runs}
 
 
